@@ -161,6 +161,7 @@ def make(e, progs, job):
         ops = [{'op': 'model', 'id': 'm', 'data': mj}]
         if job['kind'] == 'roundtrip':
             tr = [m.eval(x.t, model_completion=True).as_long() for x in st.get('trail', [])]
+            ops.append({'op': 'model_read_chunked', 'model': 'm'})
             ops.append({'op': 'model_roundtrip', 'model': 'm', 'trailing': tr})
         elif job['kind'] == 'prefix':
             ops.append({'op': 'model_prefix_scan', 'model': 'm'})
@@ -197,6 +198,9 @@ def confirm(sc, replay):
         return True, {'native': r}
     bad = []
     if kind == 'roundtrip':
+        ch = [x for op, x in zip(sc['ops'], res) if op['op'] == 'model_read_chunked']
+        if ch and ch[0].get('bad'):
+            bad.append('reader: ' + str(ch[0]['bad'][0]))
         if not (r.get('read_ok') and r.get('to_vec_equal') and r.get('write_equal') and r.get('slice_ok') and r.get('slice_to_vec_equal')):
             bad.append('roundtrip')
         if r.get('rest') != sc['ops'][-1]['trailing']:
